@@ -848,9 +848,9 @@ pub fn push_popfq(v: u64) {
     log(Kind::Popfq, v, 0, 0);
 }
 
-/// `lea r, [rip]`
+/// `lea r, [rip]`: some canonical address (RIP is always canonical).
 pub fn read_rip() -> u64 {
-    let v = nondet_u64();
+    let v = (((nondet_u64() << 16) as i64) >> 16) as u64;
     log(Kind::ReadRip, v, 0, 0);
     v
 }
